@@ -28,6 +28,11 @@ R06.11 the minimum is subtracted from every lane (lib/lanemin.py): in each assem
       vector subtractions, every 128-bit lane of the subtrahend depends on every 16-byte granule of lens[] loaded so
       far - the min-reduction tree and the broadcast behind it leave no part of the register out.  Dependence sets
       on the length skeleton; presence only.
+R06.12 stores through a job pointer (loaded from the lane table and not modified since) never cover bytes of the
+      caller-owned job.user_data - a digest written with a store wider than what is left of the digest field runs
+      over job.status and user_data.
+R06.13 idle lanes keep the idle length: in every flush manager each block that fills an empty lane's data pointer also
+      stores the all-ones length into that lane's lens word.
 R06.5 field width: every write at a fixed offset into a scalar field of the manager struct (unused_lanes,
       num_lanes_inuse) starts at the field and has the field's width.
 R06.6 struct mirror: the offsets the assembly uses for job / manager / lane fields (nasm struct symbols) equal the
@@ -371,6 +376,10 @@ def run(chk):
     chk.obligations["R06.6"] = [tot["mirror_fields"], tot["mirror_fields"] - len([f for f in chk.findings if f.rule == "R06.6"])]
     chk.obligations["R06.8"] = [tot["lane_stack_tests"], tot["lane_stack_tests"] - len([f for f in chk.findings if f.rule == "R06.8"])]
     chk.floor("lane-stack tests (bt / cmp on unused_lanes) judged", tot["lane_stack_tests"], 12)
+    chk.obligations["R06.12"] = [tot["job_store_extents"], tot["job_store_extents"] - len([f for f in chk.findings if f.rule == "R06.12"])]
+    chk.floor("stores through job pointers with a known extent", tot["job_store_extents"], 100)
+    chk.obligations["R06.13"] = [tot["idle_fills"], tot["idle_fills"] - len([f for f in chk.findings if f.rule == "R06.13"])]
+    chk.floor("empty-lane fills in flush managers paired with the idle length", tot["idle_fills"], 150)
     chk.obligations["R06.5"] = [tot["scalar_field_accesses"], tot["scalar_field_accesses"] - len([f for f in chk.findings if f.rule == "R06.5"])]
     chk.floor("struct-mirror fields compared", tot["mirror_fields"], 300)
     chk.floor("scalar manager field accesses", tot["scalar_field_accesses"], 100)
@@ -494,11 +503,68 @@ def asm_worker(lib, objname, extra):
                         add("R06.4", name, "store-through-data-pointer", "`%s` stores through a pointer loaded from the manager's data_ptr array (the caller's input buffer)" % i.text.strip(), i.addr, key[1])
                     else:
                         out["counts"]["cls:job-pointer"] += 1
+                        # R06.12: extent of a store through a job pointer that was loaded from the lane table and not
+                        # modified since (base register defined by a plain load earlier in the block)
+                        mo = i.memop()
+                        ud = None
+                        for m_ in (job or {}).get("members", []):
+                            if m_["name"] == "user_data":
+                                ud = (m_["off"], m_["size"])
+                        if mo and mo[0] and not mo[2] and ud is not None and i.memsize():
+                            base = x86.PARENT.get(mo[0])
+                            pure = False
+                            bl_ = b
+                            for j in reversed(bl_[:bl_.index(i)]):
+                                if base in [x86.PARENT.get(d_) for d_ in list(j.explicit_defs()) + list(j.idefs)]:
+                                    pure = j.op == "MOV64rm"
+                                    break
+                            if pure:
+                                lo_, hi_ = (mo[3] or 0), (mo[3] or 0) + i.memsize()
+                                out["counts"]["job_store_extents"] += 1
+                                if lo_ < ud[0] + ud[1] and ud[0] < hi_:
+                                    add("R06.12", name, "job-store-extent", "`%s` writes bytes %d..%d of the job, which include the caller-owned user_data (bytes %d..%d)" % (i.text.strip(), lo_, hi_ - 1, ud[0], ud[0] + ud[1] - 1), i.addr, key[1])
                     continue
                 if any(isinstance(t, str) for t in rs):
                     out["counts"]["cls:manager-or-job-argument"] += 1
                     continue
                 out["counts"]["cls:other"] += 1
+        # ---- R06.13 idle lanes are given the idle length: in a flush manager every block that fills an empty lane's
+        # data pointer (a store at a fixed slot of the data_ptr array) also stores the all-ones idle length into the
+        # same lane's lens word - otherwise the subtraction of the minimum makes idle lanes' lengths decay until one
+        # of them wins the minimum search
+        if FLUSH_ASM.match(name) and dp is not None and lens is not None:
+            lens_m = [m_ for m_ in (mgr or {}).get("members", []) if m_["name"] == "lens"]
+            esz = None
+            if lens_m and lens_m[0].get("size"):
+                nl_ = max(1, (min(x for x in (ldata, lens_m[0]["off"] + lens_m[0]["size"]) if x) - dp) // 8) if False else None
+            nlanes_ = None
+            if lens_m:
+                # element size of lens[] = size / number of data pointers
+                npt = (lens - dp) // 8 if lens > dp else None
+                if npt:
+                    esz = lens_m[0]["size"] // npt if lens_m[0]["size"] % npt == 0 else None
+            if esz:
+                for bl_ in f.blocks.values():
+                    fills = {}
+                    idles = set()
+                    for i in bl_:
+                        if not i.writes_mem_operand():
+                            continue
+                        av = r.maddr.get(i.addr)
+                        if not av or av[0][0] != "init" or av[0][1] != "RDI" or av[1]:
+                            continue
+                        off_ = av[0][2]
+                        if dp <= off_ < dp + 8 * npt and (off_ - dp) % 8 == 0 and i.memsize() == 8:
+                            fills[(off_ - dp) // 8] = i
+                        elif lens <= off_ < lens + esz * npt:
+                            imm_ = i.imm(i.mem + 5) if i.mem + 5 < len(i.ops) and i.ops[i.mem + 5][0] == "i" else None
+                            if imm_ is not None and (imm_ & 0xFFFFFFFF) == 0xFFFFFFFF:
+                                idles.add((off_ - lens) // esz)
+                    for ln_, ins_ in sorted(fills.items()):
+                        if len(fills) == 1 or True:
+                            out["counts"]["idle_fills"] += 1
+                            if ln_ not in idles:
+                                add("R06.13", name, "idle-lane-length:%d" % ln_, "`%s` gives empty lane %d a copy of a busy lane's data pointer but the block does not store the all-ones idle length into lens[%d]: every flush subtracts the minimum from all lanes, so the idle lane's length decays until it wins the minimum search and a lane without a job is 'completed'" % (ins_.text.strip(), ln_, ln_), ins_.addr, key[1])
         # ---- R06.3 (asm) for flush managers
         if FLUSH_ASM.match(name):
             out["counts"]["flush"] += 1
